@@ -717,7 +717,9 @@ def ref_cov(cspec, got):
     _need(got is not None and got["frame"] == cspec["frame"], "original cov frame")
     if cspec.get("history"):
         # rotated there and back: the object's own values are the reference (they equal the generator's to round-off)
-        _need(np.allclose(got["values"], np.array(cspec["values"]), rtol=1e-9, atol=1e-12), "original cov values (after the frame history)")
+        # (exact zeros of the generated matrix come back as rounding noise of the rotations: absolute floor relative to max|C|)
+        _need(np.allclose(got["values"], np.array(cspec["values"]), rtol=1e-9, atol=1e-11 * float(np.max(np.abs(np.array(cspec["values"]))))),
+              "original cov values (after the frame history)")
         # (a rotated matrix is symmetric to round-off only; a CCSDS message carries the lower triangle CX_X, CY_X, CY_Y ...)
         L = np.tril(np.array(got["values"], dtype=float))
         return {"frame": cspec["frame"], "frame_is_str": cspec["as_str"], "values": L + L.T - np.diag(np.diag(L))}
